@@ -389,3 +389,83 @@ Proof.
           | eapply wf_occupied; eauto; grows_tac
           | eapply wf_vacant; eauto; grows_tac ].
 Qed.
+
+(** ---- non-vacuity: a concrete Linux/glibc verdict table (the probe re-measures it on every run)
+         and a reachable state with several registrations ---- *)
+Definition linux_query (s : Z) : bool := (1 <=? s) && (s <=? 64) && negb ((s =? 32) || (s =? 33)).
+Definition linux_os : os :=
+  {| os_query := linux_query; os_set := fun s => linux_query s && negb ((s =? SIGKILL) || (s =? SIGSTOP)) |}.
+Definition st0 : state := init_state (fun _ => Dfl).
+(** after register(SIGUSR1), register(SIGUSR2) twice, unchecked(SIGFPE), Signals::new(&[SIGUSR1]) *)
+Definition st1 : state :=
+  let step f s st := r_state (entry linux_os FdPipe f s st) in
+  step FSignalsNew 10 (step FRegisterSignalUnchecked 8 (step FRegister 12 (step FRegister 12 (step FRegister 10 st0)))).
+
+Example st0_wf : wf linux_os st0.
+Proof. apply wf_init. discriminate. Qed.
+
+Example st1_wf : wf linux_os st1.
+Proof.
+  unfold st1. repeat (apply wf_preserved; [cbn; tauto| |reflexivity|intros _; reflexivity]).
+  exact st0_wf.
+Qed.
+
+Example st1_shape : reg st1 = [(10, [1%N; 5%N]); (12, [2%N; 3%N]); (8, [4%N])] /\ next_id st1 = 6%N /\ inst st1 = [10] /\
+  disp_of st1 10 = Lib /\ disp_of st1 8 = Lib /\ disp_of st1 9 = Dfl /\ fallback st1 = Some 8.
+Proof. vm_compute. repeat split; reflexivity. Qed.
+
+Example ex_checked_kill : forall f, In f checked_eps ->
+  r_out (entry linux_os FdPipe f SIGKILL st1) = Panic PForbidden /\
+  reg (r_state (entry linux_os FdPipe f SIGKILL st1)) = reg st1 /\
+  next_id (r_state (entry linux_os FdPipe f SIGKILL st1)) = 6%N /\
+  r_released (entry linux_os FdPipe f SIGKILL st1) =
+    (if iterator_ep f then (match f with FSignalsNew => [RInstance] | _ => [] end) ++ [RArcPending; RArcWrite] else all_params f).
+Proof. intros f Hf. each_checked Hf; vm_compute; repeat split; reflexivity. Qed.
+
+Example ex_checked_fpe_occupied : (* SIGFPE has a slot (unchecked registration): still refused by the checked API *)
+  r_out (entry linux_os FdPipe FFlagRegister SIGFPE st1) = Panic PForbidden /\
+  r_released (entry linux_os FdPipe FFlagRegister SIGFPE st1) = [RFlag].
+Proof. vm_compute. split; reflexivity. Qed.
+
+Example ex_checked_invalid : forall s, In s [0; 32; 33; 65; 1000; -1; 2147483647; -2147483648] ->
+  r_out (entry linux_os FdSocket FPipeRegister s st1) = Err EOs /\
+  r_released (entry linux_os FdSocket FPipeRegister s st1) = [RFd] /\
+  r_out (entry linux_os FdSocket FFlagCondDefault s st1) = Err (EPrecheck EINVAL) /\
+  reg (r_state (entry linux_os FdSocket FPipeRegister s st1)) = reg st1.
+Proof. intros s Hs. cbn in Hs. repeat (destruct Hs as [<-|Hs]; [vm_compute; repeat split; reflexivity|]). contradiction. Qed.
+
+Example ex_iterator_out_of_table : forall s, In s [-1; 128; 1000; -2147483648] ->
+  r_out (entry linux_os FdPipe FHandleAddSignal s st1) = Panic PIndex /\ out_of_table s = true /\ c_int s.
+Proof.
+  intros s Hs. cbn in Hs.
+  repeat (destruct Hs as [<-|Hs]; [vm_compute; repeat split; (reflexivity || discriminate)|]). contradiction.
+Qed.
+
+Example ex_iterator_rejected_in_table : (* 65..127: inside the iterator's table, rejected by the OS *)
+  r_out (entry linux_os FdPipe FSignalsAddSignal 100 st1) = Err EOs /\
+  r_released (entry linux_os FdPipe FSignalsAddSignal 100 st1) = [RArcPending; RArcWrite].
+Proof. vm_compute. split; reflexivity. Qed.
+
+Example ex_unchecked_kill : (* query succeeds, fallback overwritten, set fails *)
+  r_out (entry linux_os FdPipe FRegisterSignalUnchecked SIGKILL st1) = Err EOs /\
+  fallback (r_state (entry linux_os FdPipe FRegisterSignalUnchecked SIGKILL st1)) = Some SIGKILL /\
+  reg (r_state (entry linux_os FdPipe FRegisterSignalUnchecked SIGKILL st1)) = reg st1 /\
+  next_id (r_state (entry linux_os FdPipe FRegisterSignalUnchecked SIGKILL st1)) = next_id st1 /\
+  disp_of (r_state (entry linux_os FdPipe FRegisterSignalUnchecked SIGKILL st1)) SIGKILL = Dfl.
+Proof. vm_compute. repeat split; reflexivity. Qed.
+
+Example ex_unchecked_segv_ok :
+  r_out (entry linux_os FdPipe FRegisterUnchecked SIGSEGV st1) = OkId 6%N /\
+  disp_of (r_state (entry linux_os FdPipe FRegisterUnchecked SIGSEGV st1)) SIGSEGV = Lib.
+Proof. vm_compute. split; reflexivity. Qed.
+
+Example ex_accepted : forall f, In f checked_eps ->
+  is_ok (r_out (entry linux_os FdSocket f 15 st1)) /\ r_released (entry linux_os FdSocket f 15 st1) = [] /\
+  disp_of (r_state (entry linux_os FdSocket f 15 st1)) 15 = Lib.
+Proof. intros f Hf. each_checked Hf; vm_compute; repeat split; reflexivity. Qed.
+
+(** facts about the extracted data the statements rely on *)
+Lemma wakefd_closes : wakefd_drop_closes = true. Proof. reflexivity. Qed.
+Lemma unregister_guarded : unregister_publish_guarded = true. Proof. reflexivity. Qed.
+Lemma table_len : ids_table_len_is_max = true. Proof. reflexivity. Qed.
+Lemma default_exfiltrator : signalonly_supports_all = true /\ signalonly_init_empty = true. Proof. split; reflexivity. Qed.
